@@ -181,15 +181,32 @@ class VirtualTime:
         self.cond = threading.Condition()
         self.parked = {}
         self.tickets = {}
+        self.closed = set()
 
     def sleep(self, _):
         me = threading.get_ident()
         with self.cond:
             self.parked[me] = self.parked.get(me, 0) + 1
             self.cond.notify_all()
-            while self.tickets.get(me, 0) == 0:
+            while self.tickets.get(me, 0) == 0 and me not in self.closed:
                 self.cond.wait()
+            if me in self.closed:
+                raise SystemExit()    # the history is over: let the refresher thread end (thousands of parked threads
+                                      # exhaust the machine's thread limit in the thorough tier)
             self.tickets[me] -= 1
+
+    def close(self, thread):
+        """End the refresher thread of a selector that is not used any more."""
+        if thread is None or thread.ident is None:
+            return
+        with self.cond:
+            self.closed.add(thread.ident)
+            self.cond.notify_all()
+        thread.join(5)
+        with self.cond:
+            for book in (self.parked, self.tickets):
+                book.pop(thread.ident, None)
+            self.closed.discard(thread.ident)
 
     def tick(self, thread):
         """Let the refresher do exactly one more pass and wait until it sleeps again."""
@@ -212,6 +229,7 @@ def _latest_job(job):
     reg = regfix.directory(root)
     latest = application.Latest('prj', str(configured) if configured else None, refresh=1)
     explicit = None
+    used = []
     log, drift, fail = [], 0, None
     for step, ev in enumerate(hist):
         if ev['op'] == 'publish':
@@ -220,6 +238,7 @@ def _latest_job(job):
             gens = [int(p) for p in os.listdir(os.path.join(root, 'prj', str(ev['r']))) if p.isdigit()]
             regfix.commit(root, 'prj', ev['r'], max(gens, default=0) + 1)
         elif ev['op'] == 'copy':
+            used.append(latest)
             latest = pickle.loads(pickle.dumps(latest)) if step % 2 else copy.deepcopy(latest)
         elif ev['op'] == 'tick':
             if not vt.tick(latest._refresher):
@@ -248,6 +267,10 @@ def _latest_job(job):
                 fail = ('Explicit strategy returned another instance than configured',
                         {'kind': 'explicit', 'hist': hist, 'step': step})
                 break
+    for selector in used + [latest]:
+        thread = getattr(selector, '_refresher', None)
+        if thread is not None and thread.is_alive():
+            vt.close(thread)
     shutil.rmtree(root, ignore_errors=True)
     return fail, drift, log
 
